@@ -24,7 +24,7 @@ from reactivex import abc
 from reactivex.disposable import CompositeDisposable, Disposable
 
 from .core import HarnessError
-from .lab import _Logged, timelines
+from .lab import _Logged
 from .values import Tagged, val
 
 # ---------------------------------------------------------------------------------------
@@ -561,6 +561,22 @@ def exact_trace(op):
 # strategies
 
 
+def draw_timeline(draw, max_len, max_dt, values, terminals, errors, burst_one_in=0):
+    """Plain drawing helper (no nested @composite: building composites per draw is slow).
+    Conforming timeline [[t, kind, payload], ...]; values: list of names or None for placeholders."""
+    n = draw(st.integers(0, max_len))
+    burst = burst_one_in and draw(st.integers(0, burst_one_in - 1)) == 0
+    t, out = 0, []
+    for _ in range(n):
+        t += 0 if burst else draw(st.integers(0, max_dt))
+        out.append([t, "N", draw(st.sampled_from(values))])
+    term = draw(st.sampled_from(terminals))
+    if term is not None:
+        t += 0 if burst else draw(st.integers(0, max_dt))
+        out.append([t, term, draw(st.sampled_from(errors)) if term == "E" else None])
+    return out
+
+
 def _renumber(tl, base):
     out, k = [], 0
     for t, kind, p in tl:
@@ -572,28 +588,27 @@ def _renumber(tl, base):
     return out
 
 
-def inner_specs(max_inners=4, kinds=("cold", "cold", "sync", "hot"), max_len=4, max_dt=3):
+_TERMS = ["C", "C", "C", "E", None]
+
+
+@st.composite
+def inner_specs(draw, max_inners=4, kinds=("cold", "cold", "sync", "hot"), max_len=4, max_dt=3):
     """List of inner source specs; inner i emits the distinct ints 100*i, 100*i+1, ... so that every element
     identifies its source.  Terminal: completion, error (tag e<i>) or none (never terminates)."""
-
-    @st.composite
-    def _s(draw):
-        n = draw(st.integers(1, max_inners))
-        out = []
-        for i in range(n):
-            kind = draw(st.sampled_from(list(kinds)))
-            tl = draw(timelines(max_len=max_len, max_dt=max_dt, values=["i0"], terminal=("C", "C", "C", "E", None), errors=(f"e{i}",)))
-            tl = _renumber(tl, 100 * i)
-            if kind == "hot":
-                off = draw(st.integers(0, 6))
-                tl = [[t + off, k, p] for t, k, p in tl]
-            if kind == "sync" and draw(st.booleans()):
-                m = draw(st.integers(1, 5))  # make the head (possibly everything incl. the terminal) synchronous
-                tl = _fix([[0 if i_ < m else t, kd, p] for i_, (t, kd, p) in enumerate(tl)])
-            out.append({"kind": kind, "tl": tl})
-        return out
-
-    return _s()
+    n = draw(st.sampled_from([2, 3, 1, 4][: max_inners] if max_inners < 4 else [2, 3, 1, 4]))
+    out = []
+    for i in range(n):
+        kind = draw(st.sampled_from(list(kinds)))
+        tl = draw_timeline(draw, max_len, max_dt, ["i0"], _TERMS, [f"e{i}"])
+        tl = _renumber(tl, 100 * i)
+        if kind == "hot":
+            off = draw(st.integers(0, 6))
+            tl = [[t + off, k, p] for t, k, p in tl]
+        if kind == "sync" and draw(st.booleans()):
+            m = draw(st.integers(1, 5))  # make the head (possibly everything incl. the terminal) synchronous
+            tl = _fix([[0 if i_ < m else t, kd, p] for i_, (t, kd, p) in enumerate(tl)])
+        out.append({"kind": kind, "tl": tl})
+    return out
 
 
 def _fix(tl):
@@ -604,20 +619,15 @@ def _fix(tl):
     return out
 
 
-def outer_spec(n_inners, max_len=5, max_dt=3, kinds=("cold", "cold", "sync", "hot")):
+def draw_outer(draw, n_inners, max_len=5, max_dt=3, kinds=("cold", "cold", "sync", "hot")):
     """Outer source spec whose elements are "n:<k>" selectors (resolved modulo the number of inners)."""
-
-    @st.composite
-    def _s(draw):
-        kind = draw(st.sampled_from(list(kinds)))
-        sel = [f"n:{i}" for i in range(n_inners)]
-        tl = draw(timelines(max_len=max_len, max_dt=max_dt, values=sel, terminal=("C", "C", "C", "E", None), errors=("eo",)))
-        if kind == "hot":
-            off = draw(st.integers(0, 4))
-            tl = [[t + off, k, p] for t, k, p in tl]
-        if kind == "sync" and draw(st.booleans()):
-            m = draw(st.integers(1, 3))
-            tl = _fix([[0 if i < m else t, k, p] for i, (t, k, p) in enumerate(tl)])
-        return {"kind": kind, "tl": tl}
-
-    return _s()
+    kind = draw(st.sampled_from(list(kinds)))
+    sel = [f"n:{i}" for i in range(n_inners)]
+    tl = draw_timeline(draw, max_len, max_dt, sel, _TERMS, ["eo"])
+    if kind == "hot":
+        off = draw(st.integers(0, 4))
+        tl = [[t + off, k, p] for t, k, p in tl]
+    if kind == "sync" and draw(st.booleans()):
+        m = draw(st.integers(1, 3))
+        tl = _fix([[0 if i < m else t, k, p] for i, (t, k, p) in enumerate(tl)])
+    return {"kind": kind, "tl": tl}
